@@ -36,7 +36,7 @@ tensor2d_t evaluate(const dataset_t& dataset, const indices_t& samples, const lo
 
 bool close(double a, double b, double tol = 1e-11)
 {
-    return (std::isnan(a) && std::isnan(b)) || std::fabs(a - b) <= tol * (1.0 + std::fabs(a) + std::fabs(b));
+    return a == b || (std::isnan(a) && std::isnan(b)) || std::fabs(a - b) <= tol * (1.0 + std::fabs(a) + std::fabs(b));
 }
 
 bool same_stats(const ml::stats_t& s, const tensor1d_t& values)
@@ -50,6 +50,10 @@ bool same_stats(const ml::stats_t& s, const tensor1d_t& values)
     {
         if (!close(got[i], r(i)))
         {
+            if (std::getenv("VERIF_DEBUG") != nullptr)
+            {
+                std::fprintf(stderr, "stats slot %d: stored %.17g recomputed %.17g\n", i, got[i], r(i));
+            }
             return false;
         }
     }
